@@ -48,7 +48,8 @@ COMPONENTS = {
              "network: damage operators and TCP segmentation (tape)", "dns.randomSource (tape-driven query id)"],
 }
 RULE = ("run = 1..3 messages built with the real encoder from a tape-chosen record mix (names partly nested under earlier names of "
-        "the run, so that compression pointers chain), 0..4 tape-chosen damage operators each (pointer rewrites include chains "
+        "the run, so that compression pointers chain; fields that carry a code - record type, TSIG error - take their defined "
+        "code points as well as undefined and boundary values), 0..4 tape-chosen damage operators each (pointer rewrites include chains "
         "of 1..4 pointers closing on any element: self loops, cycles through the start, rho shapes); "
         "traffic = those packets in order, each with p=0.4 preceded by an intact message (75% its own undamaged original) and "
         "with p=0.12 delivered twice; the traffic is delivered back to back to fromStr, to one UDP protocol instance and "
@@ -56,7 +57,21 @@ RULE = ("run = 1..3 messages built with the real encoder from a tape-chosen reco
         "drops it at once in the others; non-trivial = at least one damage operator or a TCP segmentation cut actually fired")
 ASSUMPTIONS = [
     "EOFError/ValueError escaping DNSProtocol.dataReceived are what the TCP protocol treats as a malformed packet (the transport drops the connection): no verdict",
-    "packets are at most a few KiB; the watchdog is CPU time (RUN_WALL_LIMIT_S per run, normal runs take about 1 ms)",
+    "packets are at most a few KiB (measured: <= 1 KiB, median 250 B); the watchdog is CPU time (RUN_WALL_LIMIT_S per run, normal "
+    "runs take about 1 ms, the slowest of 12000 took 15 ms)",
+    "the statement bounds no decoding TIME, only termination: Name.decode bounds one name by its visited set, but the work per "
+    "message is quadratic in its size (H chained pointers below offset 16384 shared by N names cost H*N hops: measured 0.05 s at "
+    "4 KiB, 0.75 s at 16 KiB, 2.9 s at 32 KiB, 14 s for a 65531-byte TCP frame of 8192 questions over an 8184-hop chain; all "
+    "terminate).  No verdict on that; it only limits the workload: the watchdog stays a sound 'does not terminate' verdict "
+    "as long as packets stay under about 4 KiB (at most 27 decodes of 0.05 s in a run, twice that in a twin-instance run: < 3 s of the 4 s, and only for inputs built for it), so the generator must not be "
+    "extended to full-size TCP frames without raising RUN_WALL_LIMIT_S accordingly (>= 60 s per 64 KiB delivery)",
+    "the consumer (controller.messageReceived, the Deferred of a pending query) never calls back into dataReceived of the "
+    "protocol that is delivering to it (real reactor transports never deliver re-entrantly).  DNSProtocol.dataReceived keeps "
+    "the current frame in self.buffer with self.length set while it dispatches, so a nested dataReceived decodes and dispatches "
+    "the same frame again and the outer call then cuts self.buffer by the inner call's self.length (bytes of a partly received "
+    "next frame are lost, the stream is misframed).  That concerns how often and in which framing messages are dispatched, on "
+    "which the statement is silent; every exception it leads to is EOFError/ValueError from the misframed bytes (a consumer "
+    "that re-enters on EVERY message recurses through its own calls).  No such consumer, no verdict",
     "every run and every stage starts with one decode of a fixed plain query from a buffer that stays alive for the run, so that "
     "decoder memory of 'the previous buffer' never refers to an earlier run or stage (warm workers); leakage between two "
     "instances of the whole scenario is covered by the twin-instance runs (TWIN_P)",
@@ -70,6 +85,10 @@ LEVEL_NOTE = "input space sampled by seeded mutation of real encodings; not cove
 LABELS = [b"a", b"bb", b"example", b"com", b"org", b"x" * 63, b"_sip", b"_tcp", b"mail", b"0", b"ns1", b"y" * 40, b"Z"]
 TYPES16 = sorted(dns.Message._recordTypes) + [0, 41, 251, 252, 255, 256, 0xFFFF, 0xC000, 0xC00C, 0x3FFF, 0x4000, 0x8000]
 BYTEVALS = [0x00, 0xFF, 0xC0, 0xC1, 0x3F, 0x40, 0x80, 0x01, 0x0C, 0x7F]
+# a field that carries a CODE is drawn from the code points defined for it (a decoder may branch on any of them) as well as
+# from undefined and boundary values: the 16-bit error field of TSIG (RFC 8945 section 5.3: plain RCODEs and the extended
+# ones 16 BADSIG, 17 BADKEY, 18 BADTIME, 22 BADTRUNC; 19..21, 23 belong to TKEY / cookies)
+TSIG_ERRORS = [0] + list(range(16, 24)) + [1, 5, 9, 15, 255, 65535]
 
 
 def _name(sim):
@@ -137,7 +156,10 @@ def _record(sim):
     if k == 24:
         return dns.Record_SPF(*[_blob(sim, 30) for _ in range(sim.draw_int(0, 2, "ntxt"))])
     if k == 25:
-        return dns.Record_TSIG(N(), sim.draw_choice([0, 1, 2**47], "time"), i16(), _blob(sim, 20), i16(), i16(), _blob(sim, 6))
+        err = sim.draw_choice(TSIG_ERRORS, "tsig_error")
+        if 16 <= err < 24:
+            sim.probe("tsig_extended_error_code")
+        return dns.Record_TSIG(N(), sim.draw_choice([0, 1, 2**47], "time"), i16(), _blob(sim, 20), i16(), err, _blob(sim, 6))
     return dns.UnknownRecord(_blob(sim, 24))
 
 
@@ -321,7 +343,9 @@ def _answered(result, fired, kept):
     fired.append(type(result).__name__)
     if kept is not None:
         kept.append(result)
-# dev-time: VERIF_C33_AVOID=1 keeps every run away from the split-length-prefix finding so that mutant runs see past it
+# dev-time: VERIF_C33_AVOID=1 keeps every run away from the split-length-prefix finding (genuine defect of the tree as first examined,
+# REPAIRED in /repo 58b11d2; by default the precondition is kept out of 10% of the runs only) so that mutant runs on a tree without the
+# repair see past it
 ALWAYS_AVOID = os.environ.get("VERIF_C33_AVOID", "0") == "1"
 
 
@@ -485,7 +509,7 @@ def run(sim):
         piece = pieces[k]
         k += 1
         if avoid_split_prefix and mirror.feed(piece, commit=False):
-            # keep away from the precondition of the known length-prefix defect: never leave exactly
+            # keep away from the precondition of the length-prefix defect (REPAIRED in /repo 58b11d2): never leave exactly
             # one byte of a length prefix buffered (borrow the next byte, or hold back the last one)
             if k < len(pieces):
                 piece += pieces[k][:1]
@@ -529,7 +553,7 @@ def run(sim):
 
 
 # Sensitivity (tools/mutate.py C33 --sub src/twisted/names/dns.py ..., run with VERIF_C33_AVOID=1 so that the
-# genuine split-length-prefix finding does not answer for the mutant):
+# genuine split-length-prefix finding - at that time not yet repaired, since REPAIRED in /repo 58b11d2 - did not answer for the mutant):
 MUTANTS = [
     "Name.decode: `if new_off in visited` -> `if False` (no loop check) -> CAUGHT (terminates:watchdog)",
     "Name.decode: `visited.add(new_off)` removed -> CAUGHT (terminates:watchdog)",
@@ -542,5 +566,8 @@ MUTANTS = [
     "recognised by id(strio): an intact compressed message followed by a tampered copy whose cycle passes through one of its name "
     "offsets, with the first buffer's address handed to the second) -> CAUGHT (terminates:watchdog; needs the intact-then-tampered "
     "traffic; about 1 run in 120)",
+    "Record_TSIG.decode: error == EBADTIME makes it unpack the other data as a 48-bit time whatever its length (seeded C33-r6b) -> "
+    "CAUGHT in the quick tier (fromStr-raised:error) since the TSIG error field is drawn from its defined code points; before, only "
+    "a byte fault landing 18 on that field reached the branch (thorough tier)",
     "same change with the buffer recognised by its length instead of its address (intact message, then a same-length tampered copy) -> CAUGHT (terminates:watchdog)",
 ]
